@@ -43,22 +43,28 @@ CLAIMED = {
             "aggregation as exact integer reductions). TLC enumerates scenarios (14 sensor arrangements incl. static / translating / rotating / shorter / unrotated / "
             "first=last orientation / left-handed / mixed pixel shapes, 8 aggregators, flags) and checks definitional facts; every scenario is executed on real Sensor "
             "objects with integer-valued tagged CustomSources, the complete output tensor and its shape are compared EXACTLY by TLC; static sensors are also replaced by explicit global positions; "
-            "half of the scenarios again under random rigid motions and length units.",
+            "half of the scenarios again under random rigid motions and length units. The implementation view (spec/FieldAlgo.tla: tiling, poso, groups, level1 rows, "
+            "reduce loop, sensor rotation branches, aggregation, sumup) is checked by TLC to refine the declarative tensor, and the arrays the code holds at four hook points are compared "
+            "with it step by step (clauses StageComputed..StageSumup). The grammar of the observers argument (spec/Observers.tla: position arrays written as list/tuple/ndarray, sensors, "
+            "collections, lists of those, stacking rule, inadmissible forms) is model-checked and every written form is executed.",
             "Trusted: TLC, Json; index algebra is class independent so tagged CustomSources stand for all classes; relative poses restricted to the lattice.",
             "DESIGN.md section 5 C04"),
     "C05": ("model_checking",
             "same engine as C04 on source arrangements with nested collections, sumup and mixed orderings (structural superposition, exact)",
             "TLC checks on the definition that a (nested) collection entry equals the sum of its leaf sources; scenarios with collections of 1-5 leaves, nesting, sensors inside "
-            "source collections, collections followed by bare sources, duplicates and sumup are executed on real objects and the full tensors compared exactly by TLC. "
-            "Linearity in the excitation of real source classes is covered by the law-instance checks (C12 ScaleExc, C13).",
-            "Trusted: TLC, Json; tagged sources. Linearity of each closed-form expression in its excitation is not decided here.",
+            "source collections (also followed by further entries), collections followed by bare sources, duplicates and sumup are executed on real objects and the full tensors "
+            "compared exactly by TLC, together with the arrays at the code's hook points (FieldAlgo.tla, clause StageReduced = the in-place slice-sum loop). For the 16 real source "
+            "classes of the Batch palette TLC judges linearity (integer combinations), homogeneity over 8 decades of the excitation and superposition (sumup / collection = sum of single-source calls).",
+            "Trusted: TLC, Json; tagged sources for the index algebra; quantization to 1e-12 of the gross scale for the real-class laws.",
             "DESIGN.md section 5 C05"),
     "C06": ("model_checking",
             "same engine as C04: element independence and shape/squeeze rule checked by TLC on the definition and exactly on real output tensors",
             "TLC proves on every enumerated scenario that element (l,m,k,j) of the definition equals the element of the call with source l and sensor k alone (objects with shorter "
             "paths staying at their last pose), and checks the shape rule; real calls with all orderings, duplicates, path-length patterns and grouping of sources sharing a "
-            "field function are compared exactly, including output shape with and without squeeze.",
-            "Trusted: TLC, Json; tagged sources (batch-composition effects inside the closed-form core functions of real classes are covered by C02/C13 law instances).",
+            "field function are compared exactly, including output shape with and without squeeze, the arrays at the code's hook points (FieldAlgo.tla) and every way of writing the "
+            "observers argument (Observers.tla). For 16 real sources (MC_Batch: all orders up to length 2-3, duplicates, same-class sandwiches) TLC judges element independence against "
+            "single calls, incl. the smallest case, surface observers, batch SIZE (one row of a 12-row call against row-by-row calls), finiteness and failure of the batch call.",
+            "Trusted: TLC, Json; tagged sources for the index algebra; quantization to 1e-12 of the gross scale for the real-class laws.",
             "DESIGN.md section 5 C06"),
     "C08": ("model_checking",
             "TLC model of the call life cycle with a failure at every phase (MC_FieldCall) + Apalache inductive invariant for unbounded path lengths (spec/apalache/FieldCallInd.tla) + trace validation of hook-recorded phase traces of real calls through FieldCall!RunF + deep before/after digests",
